@@ -269,7 +269,17 @@ namespace ratio
         std::vector<lit> lits;
         for (const auto &bex : xprs)
             lits.push_back(bex->l);
-        return new bool_item(*this, sat_cr.new_exct_one(std::move(lits)));
+        // the literal of sat_core::new_exct_one only implies the cardinality constraint (its negation enforces nothing), while an
+        // expression can also occur negated: we build an equivalence, the disjunction over the operands of 'this one and none of the others'..
+        std::vector<lit> cases;
+        for (size_t i = 0; i < lits.size(); ++i)
+        {
+            std::vector<lit> c_case;
+            for (size_t j = 0; j < lits.size(); ++j)
+                c_case.push_back(i == j ? lits[j] : !lits[j]);
+            cases.push_back(sat_cr.new_conj(std::move(c_case)));
+        }
+        return new bool_item(*this, sat_cr.new_disj(std::move(cases)));
     }
 
     CORE_EXPORT arith_expr core::add(const std::vector<arith_expr> &xprs) noexcept
